@@ -31,6 +31,29 @@ CLAIMED = {
     "C18": ("runtime monitor: independent year-range / edition-guess oracle + remove_ambiguous differential",
             "Held on N resource citations with boundary years in every position and multi-edition reporters "
             "from the whole database.", "§4/C18"),
+    "C05": ("runtime monitor: scenario model with generator-side ground truth vs. resolve_citations(get_citations(text))",
+            "Held on N scenario documents (small scenario space enumerated exhaustively, larger ones sampled), "
+            "every reference kind and colliding reporter/volume cases observed.", "§4/C05"),
+    "C06": ("runtime monitor: structural partition checker over exhaustively enumerated kind sequences of real "
+            "extracted citation objects + extracted lists",
+            "Exhaustive for the 20-kind alphabet up to length 3 (quick) / 5 (thorough); sampled beyond.", "§4/C06"),
+    "C07": ("runtime monitor: executable reference model (admissible-resource sets) vs. the real resolver on "
+            "exhaustively enumerated kind sequences, pin-window boundary values and extracted lists",
+            "No inadmissible attachment on all sequences <= 3 (quick) / <= 5 (thorough) and sampled longer ones.",
+            "§4/C07"),
+    "C08": ("runtime monitor: prefix-replay history checker (re-invokes resolve_citations on every prefix)",
+            "Held on every (list, cut) pair of the exhaustive enumeration and of extracted lists.", "§4/C08"),
+    "C09": ("runtime monitor: unique-sentinel strip oracle on annotate_citations over 3 modes x 2 engines x "
+            "{no source, forced-alignment source, edited source} + extracted spans on marked-up documents",
+            "Held on N annotate calls per (mode, engine, source) cell, incl. empty/overlapping/unsorted spans and "
+            "observed style-tag repairs.", "§4/C09"),
+    "C10": ("runtime monitor: exact expected-output oracle under the forced-alignment construction + "
+            "exactly-once/in-order oracle without source + full offset sweep of SpanUpdater.update",
+            "Held on N forced-alignment cases with annotations adjacent to inserted material on both sides and "
+            "M string pairs swept over every offset.", "§4/C10"),
+    "C11": ("runtime monitor: lxml well-formedness + text-content judge on skip/wrap output over generated "
+            "element trees and marked-up legal documents",
+            "Held on N trees with spans crossing element boundaries in both modes.", "§4/C11"),
     "C12": ("runtime monitor: partition postcondition (icontract) on Tokenizer.tokenize for all three "
             "tokenizers + sys.monitoring loop-invariant hook on the live `offset`",
             "Held on N observed tokenisations of adversarial overlap-forcing documents; mechanism counters "
